@@ -23,7 +23,7 @@ var byteAlphabet = []byte(`{}[]:,"\u0Ce-+. 19` + "\n\x00\xff\xc3\xa9" + `ntrflsa
 
 var fragAlphabet = []string{
 	"{", "}", "[", "]", ":", ",", `"a"`, `"a"`, `"b"`, "1", "-", "0", ".5", "e1", "null", "tru", "true", " ", "\n",
-	`"\ud800"`, `"😀"`, "\"\xff\"", `"\uD83D`, `\uDE00"`, `"`, `\`, "false", "9", "E+", `""`,
+	`"\ud800"`, `"\ud83d\uDE00"`, `"😀"`, "\"\xff\"", `"\uD83D`, `\uDE00"`, `"`, `\`, "false", "9", "E+", `""`,
 }
 
 type cfgT struct{ inv, dup bool }
